@@ -427,6 +427,22 @@ class IArr:
         ln = sym.smax(hi - lo, 0)
         return lo, ln
 
+    def _strided(self, idx):
+        """x[a:b:k] with a constant step k > 1 on some axes: modelled as a copy of the selected entries."""
+        t = list(idx if isinstance(idx, tuple) else (idx,))
+        if any(i is Ellipsis for i in t):
+            k = t.index(Ellipsis)
+            t = t[:k] + [slice(None)] * (len(self.vshape) - (len(t) - 1)) + t[k + 1:]
+        t = t + [slice(None)] * (len(self.vshape) - len(t))
+        if any(not isinstance(i, slice) for i in t):
+            raise OutOfReach("strided slice combined with integer indices")
+        base = self.getitem(tuple(slice(i.start, i.stop, None) for i in t))
+        steps = [i.step if isinstance(i.step, int) and i.step > 1 else 1 for i in t]
+        snap = base._snapshot()
+        shp = [(d + k - 1) // k if k > 1 else d for d, k in zip(base.vshape, steps)]
+        cur().note("x[::k] modelled as a copy")
+        return IArr.from_fn(shp, lambda vi: snap(tuple(i * k for i, k in zip(vi, steps))), quat=base.quat, cplx=base.cplx, hcell=base.hcell)
+
     def _reverse_axes(self, idx):
         """x[::-1] on some axes: modelled as a reversed *copy* (numpy gives a view; writes through it are not modelled)."""
         t = list(idx if isinstance(idx, tuple) else (idx,))
@@ -555,6 +571,8 @@ class IArr:
             r = self._reverse_axes(idx)
             if r is not None:
                 return r
+        if any(isinstance(i, slice) and isinstance(i.step, int) and i.step > 1 for i in t):
+            return self._strided(idx)
         kind, r = self._index(idx)
         if kind == "scalar":
             return self.at(*r)
